@@ -46,6 +46,13 @@ def run(chk, orch):
                         tie_perm=chk.rng.randrange(0, 30), genes_per_chr=chk.rng.choice([3, 4]))
             opts = common.random_opts(chk.rng, spec)
             opts.update(check_canonical=True, annotated=True, report_canonical=chk.rng.choice([None, "auto", "only_canonical", "only_stranded", "all"]))
+            # reads (and novel models) with an exon outside the annotated span of their gene
+            spec["outside_exon"] = chk.rng.choice([1, 2])
+            if k % 2 == 1:
+                # unannotated loci with non-canonical introns and polyA / polyT reads: the strand of their models rests on the
+                # tail evidence alone (reported only under these settings)
+                spec.update(novel_locus=2, polya=1)
+                opts["report_canonical"] = ["all", "only_stranded"][(k // 2) % 2]
             cell = common.random_cell(chk.rng)
             a = common.job_args(spec, opts, cell, oracles=["canonical"])
             orch.submit(cell["hashseed"], "scenarios:pipeline", a, tag=("p", k))
